@@ -181,7 +181,14 @@ on seeing the value another thread stored to `hash` only if it *synchronised* wi
 read `hashed == true` with an acquire load from a release store.  A load of `hash` by a thread that has not
 synchronised returns the constructor's value (the stale one — the adversarial choice). -/
 
-/-- program counter of one `get_hash()` call -/
+/-- program counter of one `get_hash()` call, or of one `clone()` call (`impl Clone for Key`):
+
+```
+Self { name: self.name.clone(), labels: self.labels.clone(),
+       hashed: AtomicBool::new(self.hashed.load(Acquire)), hash: AtomicU64::new(self.hash.load(Acquire)) }
+```
+(struct-literal fields are evaluated in the order written: the two `Cow` clones, which touch nothing shared, then
+the flag, then the value). -/
 inductive PC
   | idle                -- not calling
   | loadFlag            -- before `hashed.load`
@@ -189,30 +196,56 @@ inductive PC
   | storeHash (h : Nat) -- saw `false`, computed `h`; before `hash.store`
   | storeFlag (h : Nat) -- before `hashed.store(true)`
   | done (v : Nat)      -- returned `v`
+  | cloneName           -- `clone()`: before `self.name.clone()` (thread-local work)
+  | cloneLabels         -- `clone()`: before `self.labels.clone()` (thread-local work)
+  | cloneFlag           -- `clone()`: before `self.hashed.load`
+  | cloneHash (f : Bool)        -- `clone()`: read flag `f`; before `self.hash.load`
+  | cloneHashFirst              -- `clone()` with the two loads swapped: before `self.hash.load`
+  | cloneFlagSecond (v : Nat)   -- … read value `v`; before `self.hashed.load`
+  | cloned (f : Bool) (v : Nat) -- `clone()` returned a key with `hashed = f`, `hash = v`
   deriving DecidableEq, Repr
 
-/-- the two orderings the property depends on (`true` = at least Release / Acquire) -/
+/-- the orderings and the order of loads the property depends on (`true` = at least Release / Acquire) -/
 structure Ords where
   flagStoreRelease : Bool
   flagLoadAcquire : Bool
+  /-- `clone()`: the load of `hashed` is (at least) Acquire -/
+  cloneFlagAcquire : Bool := true
+  /-- `clone()` loads `hashed` before `hash` -/
+  cloneFlagFirst : Bool := true
   deriving DecidableEq, Repr
 
-/-- orderings in the code: `hashed.store(true, Release)`, `hashed.load(Acquire)` -/
-def codeOrds : Ords := ⟨true, true⟩
+/-- orderings in the code: `hashed.store(true, Release)`, `hashed.load(Acquire)`; clone: flag (Acquire) first -/
+def codeOrds : Ords := ⟨true, true, true, true⟩
 
 /-- memory orderings as the source spells them (`Ordering::…`, extracted by tools/extract.py) -/
 def atLeastRelease (s : String) : Bool := s == "Release" || s == "AcqRel" || s == "SeqCst"
 def atLeastAcquire (s : String) : Bool := s == "Acquire" || s == "AcqRel" || s == "SeqCst"
 
+/-- what the source says about `clone()`: the atomic calls in source order with their orderings.  `none` unless
+    they are the two loads the step machine models (in either order). -/
+def cloneOfSource (calls ords : List String) : Option (Bool × Bool) :=
+  match calls, ords with
+  | ["hashed.load", "hash.load"], [flagLoad, _] => some (atLeastAcquire flagLoad, true)
+  | ["hash.load", "hashed.load"], [_, flagLoad] => some (atLeastAcquire flagLoad, false)
+  | _, _ => none
+
 /-- the `Ords` of a `get_hash` whose atomic calls, in source order, are `calls` with orderings `ords`;
     `none` unless they are the four calls the step machine below models, in its order
-    (`loadFlag`, `loadHash`, `storeHash`, `storeFlag`) -/
+    (`loadFlag`, `loadHash`, `storeHash`, `storeFlag`).  The orderings of the two accesses to `hash` are not
+    looked at: under release/acquire on the flag they may be `Relaxed`. -/
 def ordsOfSource (calls ords : List String) : Option Ords :=
   if calls = ["hashed.load", "hash.load", "hash.store", "hashed.store"] then
     match ords with
-    | [flagLoad, _, _, flagStore] => some ⟨atLeastRelease flagStore, atLeastAcquire flagLoad⟩
+    | [flagLoad, _, _, flagStore] => some ⟨atLeastRelease flagStore, atLeastAcquire flagLoad, true, true⟩
     | _ => none
   else none
+
+/-- `get_hash` and `clone` facts of the source together -/
+def ordsOfSources (ghCalls ghOrds clCalls clOrds : List String) : Option Ords :=
+  match ordsOfSource ghCalls ghOrds, cloneOfSource clCalls clOrds with
+  | some o, some (acq, first) => some { o with cloneFlagAcquire := acq, cloneFlagFirst := first }
+  | _, _ => none
 
 structure Sys where
   /-- `hashed` -/
@@ -229,7 +262,15 @@ structure Sys where
 
 def setPc (s : Sys) (t : Nat) (p : PC) : Sys := { s with pc := fun u => if u = t then p else s.pc u }
 
-/-- one atomic operation of thread `t`'s `get_hash()`; `h` = `generate_key_hash(name, labels)` -/
+/-- thread `t` has read `hashed == true`: it synchronises if its load was an acquire of a released store -/
+def syncIf (s : Sys) (t : Nat) (b : Bool) : Sys :=
+  if b then { s with synced := fun u => if u = t then true else s.synced u } else s
+
+/-- what a load of `hash` by thread `t` returns: the latest value if `t` has synchronised, else (adversarially)
+    the value the key was constructed with -/
+def readHash (s : Sys) (t : Nat) : Nat := if s.synced t then s.hash else s.init
+
+/-- one atomic operation of thread `t`'s `get_hash()` / `clone()`; `h` = `generate_key_hash(name, labels)` -/
 def step (o : Ords) (h : Nat) (s : Sys) (t : Nat) : Sys :=
   match s.pc t with
   | .idle => s
@@ -242,6 +283,13 @@ def step (o : Ords) (h : Nat) (s : Sys) (t : Nat) : Sys :=
   | .storeHash v => setPc { s with hash := v } t (.storeFlag v)
   | .storeFlag v => setPc { s with hashed := true, flagReleased := o.flagStoreRelease } t (.done v)
   | .done _ => s
+  | .cloneName => setPc s t .cloneLabels
+  | .cloneLabels => setPc s t (if o.cloneFlagFirst then .cloneFlag else .cloneHashFirst)
+  | .cloneFlag => syncIf (setPc s t (.cloneHash s.hashed)) t (s.hashed && o.cloneFlagAcquire && s.flagReleased)
+  | .cloneHash f => setPc s t (.cloned f (readHash s t))
+  | .cloneHashFirst => setPc s t (.cloneFlagSecond (readHash s t))
+  | .cloneFlagSecond v => syncIf (setPc s t (.cloned s.hashed v)) t (s.hashed && o.cloneFlagAcquire && s.flagReleased)
+  | .cloned _ _ => s
 
 /-- run a schedule (list of thread ids) -/
 def run (o : Ords) (h : Nat) (s : Sys) (sched : List Nat) : Sys := sched.foldl (step o h) s
@@ -255,5 +303,63 @@ def freshStatic (n : Nat) : Sys :=
 def freshBuilt (h : Nat) (n : Nat) : Sys :=
   { hashed := true, hash := h, init := h, flagReleased := true,
     pc := fun t => if t < n then .loadFlag else .idle, synced := fun _ => false }
+
+/-- what a thread does with the shared key -/
+inductive Role
+  | none    -- nothing
+  | hasher  -- calls `get_hash()`
+  | cloner  -- calls `clone()`
+  deriving DecidableEq, Repr
+
+def Role.start : Role → PC
+  | .none => .idle
+  | .hasher => .loadFlag
+  | .cloner => .cloneName
+
+/-- a key whose memo fields were constructed as `hashed = f`, `hash = v` (`from_static_*`: `false, 0`; `builder`:
+    `true, h`; `clone()`: whatever it copied), shared by any number of threads with the given roles.  A flag that
+    is up at construction was written before the key was shared, which counts as released. -/
+def freshOf (f : Bool) (v : Nat) (roles : Nat → Role) : Sys :=
+  { hashed := f, hash := v, init := v, flagReleased := f,
+    pc := fun t => (roles t).start, synced := fun _ => false }
+
+/-- roles given as a list (thread `t` has role `rs[t]`) -/
+def rolesOf (rs : List Role) : Nat → Role := fun t => rs.getD t .none
+
+/-! ### `metrics_util::CompositeKey(MetricKind, Key)` — `#[derive(PartialEq, Eq, Hash, PartialOrd, Ord)]`
+
+What registries and the debugging snapshot key their maps with.  The derives compare field by field, in order:
+the kind (a fieldless enum: by discriminant `Counter < Gauge < Histogram`), then the key. -/
+
+/-- `metrics_util::MetricKind` -/
+inductive Kind
+  | counter | gauge | histogram
+  deriving DecidableEq, Repr
+
+/-- the discriminant `#[derive(PartialOrd, Ord)]` orders a fieldless enum by -/
+def Kind.discr : Kind → Nat
+  | .counter => 0 | .gauge => 1 | .histogram => 2
+
+/-- `CompositeKey(MetricKind, Key)` -/
+structure CompositeKey where
+  kind : Kind
+  key : Key
+  deriving DecidableEq, Repr
+
+/-- `#[derive(PartialEq)]`: `self.0 == other.0 && self.1 == other.1` -/
+def CompositeKey.eq (a b : CompositeKey) : Bool := (a.kind == b.kind) && Key.eq a.key b.key
+
+/-- `#[derive(Ord)]`: lexicographic, field 0 then field 1 -/
+def CompositeKey.cmp (a b : CompositeKey) : Ordering :=
+  (cmpNat a.kind.discr b.kind.discr).then (Key.cmp a.key b.key)
+
+/-! ### `Label` / `KeyName` / `SharedString` on their own (`#[derive]`d on `Label(SharedString, SharedString)` and
+`KeyName(SharedString)`; `Cow<str>` forwards `==`, `cmp`, `partial_cmp`, `hash` to `str`) -/
+
+/-- `#[derive(PartialEq)] for Label` -/
+def Label.eq (a b : Label) : Bool := (a.key == b.key) && (a.value == b.value)
+
+/-- `#[derive(Hash)] for KeyName` = `Hash for str`: what `Borrow<str> for KeyName` needs in order to be lawful -/
+def keyNameWrites (n : Str) : List Write := strWrites n
 
 end MetricsVerif.Key
